@@ -11,7 +11,7 @@
 (***************************************************************************)
 EXTENDS Stats, Json
 
-CONSTANTS PopStructs, MaxSitesFor(_), EstimatorNs, AB_PiDenominator
+CONSTANTS PopStructs, MaxSitesFor(_), EstimatorNs, BigShapes, AB_PiDenominator
 
 VARIABLES kind, pops, sites, est
 vars == <<kind, pops, sites, est>>
@@ -36,6 +36,8 @@ Init ==
     \/ /\ kind = "geno" /\ pops \in PopStructs /\ sites = <<>> /\ est = <<>>
     \/ /\ kind = "estimator" /\ pops = <<>> /\ sites = <<>>
        /\ \E n \in EstimatorNs, pat \in EstPatterns : est = <<n, pat>>
+    \/ /\ kind = "spectrum" /\ pops = <<>> /\ sites = <<>>
+       /\ \E sh \in BigShapes, seed \in 0..2 : est = <<sh, seed>>
 
 AddSite(g) ==
     /\ kind = "geno"
@@ -60,6 +62,11 @@ SpectrumMatchesGenotypes ==
 
 EstSpectrum == [shape |-> <<est[1] + 1>>, cells |-> EstCells(est[1], est[2])]
 
+(* multi-population spectra with more chromosomes than the genotype-level enumeration can reach *)
+BigSpectrum ==
+    LET sh == est[1] seed == est[2] IN
+    [shape |-> sh, cells |-> [q \in 1..Elements(sh) |-> QI(((q * 7 + seed * 3) % 5) + (IF q % 3 = seed THEN 2 ELSE 0))]]
+
 (* the estimator identities on count spectra: theta = S/a_n; D numerators vanish exactly when pi = theta etc. *)
 EstimatorSane ==
     kind = "estimator" =>
@@ -75,6 +82,10 @@ Emit ==
             sites # <<>> =>
                 PrintT("REPLAY " \o ToJson([family |-> "stats", kind |-> "geno", pops |-> pops, sites |-> sites,
                     stats |-> [s \in {x \in StatNames : Admissible(x, GShape(pops))} |-> ValJson(GStat(s, pops, sites))]]))
+      [] kind = "spectrum" ->
+            PrintT("REPLAY " \o ToJson([family |-> "stats", kind |-> "estimator", n |-> 0, pattern |-> "patterned", shape |-> est[1],
+                cells |-> [i \in 1..Elements(est[1]) |-> QStr(BigSpectrum.cells[i])],
+                stats |-> StatsJson(BigSpectrum, {x \in StatNames : Admissible(x, est[1])})]))
       [] kind = "estimator" ->
             PrintT("REPLAY " \o ToJson([family |-> "stats", kind |-> "estimator", n |-> est[1], pattern |-> est[2],
                 cells |-> [i \in 1..(est[1] + 1) |-> QStr(EstSpectrum.cells[i])],
